@@ -10,6 +10,7 @@ import (
 	"time"
 
 	"github.com/cnotch/ipchub/av/codec"
+	"github.com/cnotch/ipchub/utils/verifhook"
 	"github.com/cnotch/queue"
 	"github.com/cnotch/xlog"
 )
@@ -99,7 +100,9 @@ func (demuxer *Demuxer) process() {
 	}()
 
 	for !demuxer.closed {
+		verifhook.Point("worker.pop", 1)
 		p := demuxer.recvQueue.Pop()
+		verifhook.Point("worker.got", 1)
 		if p == nil {
 			if !demuxer.closed {
 				demuxer.logger.Warn("FrameConverter:receive nil packet")
